@@ -495,19 +495,28 @@ void do_add(World &w, int task, const Op &op)
     {
       Handle &h = w.handles[i][hidx];
       bool noattr = op.b == 0;
+      // every overload: (value), (value, context), (value, attributes), (value, attributes, context)
+      bool with_ctx = ((uint64_t)op.d >> 40) & 1;
+      opentelemetry::context::Context cx;
+      auto add = [&](auto &inst, auto value) {
+        if (noattr)
+          with_ctx ? inst->Add(value, cx) : inst->Add(value);
+        else
+          with_ctx ? inst->Add(value, attrs, cx) : inst->Add(value, attrs);
+      };
       switch (kind)
       {
         case I_COUNTER_LONG:
-          noattr ? h.cl->Add((uint64_t)unit) : h.cl->Add((uint64_t)unit, attrs);
+          add(h.cl, (uint64_t)unit);
           break;
         case I_COUNTER_DOUBLE:
-          noattr ? h.cd->Add((double)unit) : h.cd->Add((double)unit, attrs);
+          add(h.cd, (double)unit);
           break;
         case I_UPDOWN_LONG:
-          noattr ? h.ul->Add(-unit) : h.ul->Add(-unit, attrs);
+          add(h.ul, (int64_t)-unit);
           break;
         case I_UPDOWN_DOUBLE:
-          noattr ? h.ud->Add(-(double)unit) : h.ud->Add(-(double)unit, attrs);
+          add(h.ud, -(double)unit);
           break;
         case I_HIST_LONG: {
           m.hvalue = std::floor(
